@@ -97,7 +97,8 @@ def py_abs_class_name(loc, cls):
 
 
 # ---------------------------------------------------------------- random include graphs
-def include_graph_inv(rng, nclasses=None, cyclic=False, refs=0.25, missing=0.0, relative=0.2, apps=True):
+def include_graph_inv(rng, nclasses=None, cyclic=False, refs=0.25, missing=0.0, relative=0.2, apps=True, conflicts=True,
+                      sel_override=0.0, sel_relative=0.0, nref=False):
     """Inventory with classes c0..cN (some in sub-directories), a random include DAG
     (edges only to higher indices unless cyclic), per-class parameters:
       trace: [<name>]            -- concatenates, so the rendered trace is the merge order
@@ -133,8 +134,16 @@ def include_graph_inv(rng, nclasses=None, cyclic=False, refs=0.25, missing=0.0, 
             r = rng.random()
             if r < refs:
                 key = 'sel%d' % j
-                sel_defs[key] = tgt
-                cl.append('${%s}' % key)
+                val = tgt
+                tl0 = tgt.split('.')
+                if sel_relative and rng.random() < sel_relative and tl0[:-1] == loc:
+                    val = '.' + tl0[-1]          # the rendered name is relative to the including class
+                    key = 'rel%d' % j
+                if key in sel_defs and sel_defs[key] != val:
+                    cl.append(tgt)
+                else:
+                    sel_defs[key] = val
+                    cl.append('${%s}' % key)
             elif r < refs + relative:
                 # relative form of tgt from loc if expressible
                 tl = tgt.split('.')
@@ -153,11 +162,15 @@ def include_graph_inv(rng, nclasses=None, cyclic=False, refs=0.25, missing=0.0, 
             cl.insert(rng.randint(0, len(cl)), rng.choice(missing_names))
         params = [(S('trace'), L(S(name)))]
         if rng.random() < 0.7:
-            params.append((S(rng.choice(['k', 'k2'])), V.plain_value(rng, 1)))
+            params.append((S(rng.choice(['k', 'k2'])), V.plain_value(rng, 1) if conflicts else V.scalar(rng)))
         if rng.random() < 0.4:
             params.append((S('m'), M((rng.choice('xy'), V.scalar(rng)))))
-        if rng.random() < 0.15:
+        if conflicts and rng.random() < 0.15:
             params.append((S(rng.choice(['~k', '=k2', '~m'])), V.plain_value(rng, 1)))
+        if sel_override and sel_defs and rng.random() < sel_override:
+            # this class re-defines a selector that an earlier include entry reads
+            kx = rng.choice(sorted(sel_defs))
+            params.append((S(kx), S(rng.choice(names))))
         d = doc(cl, [rng.choice(['a1', 'a2', 'a3', '~a1', '~a2'])
                      for _ in range(rng.randint(0, 3))] if apps else None, ('m', params))
         inv.classes[class_path(name)] = d
@@ -169,11 +182,14 @@ def include_graph_inv(rng, nclasses=None, cyclic=False, refs=0.25, missing=0.0, 
         rng.shuffle(roots)
         if rng.random() < 0.3:
             roots.append(rng.choice(roots))
+        if refs:
+            inv_sel = {v: k for k, v in sel_defs.items() if not v.startswith('.')}
+            roots = [('${%s}' % inv_sel[x]) if x in inv_sel and rng.random() < 0.4 else x for x in roots]
         ncl = ['sel'] + roots
         if missing and rng.random() < missing:
             ncl.insert(rng.randint(1, len(ncl)), rng.choice(missing_names))
         nparams = [(S('trace'), L(S('NODE'))), (S('k'), V.scalar(rng))]
-        if rng.random() < 0.3:
+        if nref and rng.random() < 0.3:
             nparams.append((S('nref'), S('${_reclass_:name:short}-${k2}' if rng.random() < 0.5 else '${m}')))
         inv.nodes[('n%d.yml' % ni,)] = doc(ncl, ['a3', '~a2'] if rng.random() < 0.5 else [], ('m', nparams))
     return inv, names, incl
